@@ -532,6 +532,11 @@ theorem PoolOK_step {P : Params} {A : Assembler} {script : List Item} {s s' : St
     split at hs
     · injection hs with hs; subst hs; exact PoolOK_congr rfl rfl rfl rfl rfl rfl h
     · cases hs
+  case closeDone =>
+    unfold stepCloseDone at hs
+    split at hs
+    · injection hs with hs; subst hs; exact PoolOK_congr rfl rfl rfl rfl rfl rfl h
+    · cases hs
 
 /-! ### Buffer sizes and `read ≤ |buf|` -/
 
@@ -799,6 +804,11 @@ theorem Sizes_step {P : Params} {A : Assembler} {script : List Item} {s s' : Sta
     split at hs
     · injection hs with hs; subst hs; exact ⟨hl, ht, hc, hr, hi, hsn⟩
     · cases hs
+  case closeDone =>
+    unfold stepCloseDone at hs
+    split at hs
+    · injection hs with hs; subst hs; exact ⟨hl, ht, hc, hr, hi, hsn⟩
+    · cases hs
 
 /-! ### Lifting to reachable states -/
 
@@ -920,7 +930,8 @@ macro "step_split" : tactic => `(tactic| (
     | unfold stepCancelNext at hs | unfold stepReapOne at hs | unfold stepIterEnd at hs
     | unfold stepExit at hs | unfold stepRxRecv at hs | unfold stepRxNone at hs
     | unfold stepRxSendBack at hs | unfold stepRxDrop at hs | unfold stepRxClose at hs
-    | unfold stepStopCall at hs | unfold stepStopBlock at hs | unfold stepStopDisc at hs)
+    | unfold stepStopCall at hs | unfold stepStopBlock at hs | unfold stepStopDisc at hs
+    | unfold stepCloseDone at hs)
   repeat' (first | split at hs | (dsimp only at hs; split at hs))
   all_goals (first | (cases hs; done) | (injection hs with hs; subst hs))))
 
